@@ -8,11 +8,13 @@ mkdir -p build
 for ID in "${IDS[@]}"; do
   echo "$ID" > build/thorough_current
   T0=$(date +%s)
+  cp "evidence/$ID.json" "build/evidence.$ID.quick" 2>/dev/null
   ./check "$ID" --tier thorough > "build/logs/$ID.thorough.out" 2>&1
   RC=$?
   T1=$(date +%s)
   echo "$(date +%H:%M) $ID rc=$RC wall=$((T1-T0))s $(grep -E 'tier=thorough' build/logs/$ID.thorough.out | tail -1 | sed 's/.*tier=thorough//' | cut -c1-220)" >> build/thorough_summary.txt
-  mkdir -p build/evidence-thorough; cp "evidence/$ID.json" "build/evidence-thorough/$ID.json" 2>/dev/null
+  mkdir -p evidence_thorough; cp "evidence/$ID.json" "evidence_thorough/$ID.json" 2>/dev/null
+  cp "build/evidence.$ID.quick" "evidence/$ID.json" 2>/dev/null   # evidence/ keeps the quick-tier run
 done
 rm -f build/thorough_current
 echo "ALL DONE" >> build/thorough_summary.txt
